@@ -197,6 +197,16 @@ def setup_module(ck):
     p = vlib.sh(["go", "build", "-o", os.path.join(mod, "gen"), "./internal/c09/gen"], cwd=mod, env=vlib.GOENV, timeout=900, check=False)
     if p.returncode != 0:
         raise Infra("generator runner does not build against /repo:\n" + p.stdout[-3000:])
+    # tlb/parser's integer templates (GenerateVarUintTypes, GenerateConstantInts, GenerateConstantBigInts, GenerateBitsTypes), run now
+    ig = os.path.join(mod, "integers_generated.go")
+    p = vlib.sh([os.path.join(mod, "gen"), "-builtin", ig], cwd=mod, env=vlib.GOENV, timeout=300, check=False)
+    if p.returncode == 3:
+        ck.report("C09:tlb:builtin-templates:panic", "the integer templates of tlb/parser panicked: " + p.stdout[-600:], {"kind": "builtin"})
+        ig = os.path.join(vlib.REPO, "tlb", "integers.go")
+    elif p.returncode != 0:
+        raise Infra("gen -builtin failed:\n" + p.stdout[-2000:])
+    json.dump({"Replace": {os.path.join(r_, "tlb", "integers.go"): ig for r_ in {os.path.abspath(vlib.REPO), os.path.realpath(vlib.REPO)}}},
+              open(os.path.join(mod, "overlay.json"), "w"))
     return mod
 
 
@@ -245,7 +255,9 @@ def build_batch(ck, mod, b, sids, prefix="s"):
         open(os.path.join(d, "main.go"), "w").write(
             'package main\n\nimport (\n\t"verifharness/internal/c09"\n%s\n)\n\nfunc main() { c09.Main() }\n' % imports)
         out = os.path.join(mod, "drv%s" % b)
-        p = vlib.sh(["go", "build", "-gcflags=-e", "-o", out, "./cmd/drv%s" % b], cwd=mod, env=vlib.GOENV, timeout=1800, check=False)
+        # the TL-B drivers are compiled against the OUTPUT of the integer templates (setup_module), not the checked-in tlb/integers.go
+        ov = ["-overlay", os.path.join(mod, "overlay.json")] if prefix == "b" else []
+        p = vlib.sh(["go", "build", "-gcflags=-e"] + ov + ["-o", out, "./cmd/drv%s" % b], cwd=mod, env=vlib.GOENV, timeout=1800, check=False)
         if p.returncode == 0:
             return out, failed
         bad = {}
@@ -515,7 +527,10 @@ RULE_TLB = ("TL-B half. TlbShape_Gen (TLC over TlbMini.tla) enumerates declarati
             ".tlb text, runs /repo's tlb/parser twice (identical output required), compiles the generated struct types (one go build per 200 packages) "
             "and the driver marshals each value with tlb.Marshal: cells are compared with the vector (S->C) and every call is judged by TlbMini_Trace "
             "(TlbMini!Matches: bit-exact, any HmLabel form; error iff the value does not fit a cell). Random larger TL-B schemas with Go-generated values "
-            "go the same C->S way. Canaries of the Either family: TLC also emits, for a value of (Either ^X X), the cell with the reference on the other side "
+            "go the same C->S way. The TL-B drivers are compiled with the output of tlb/parser's integer templates (GenerateVarUintTypes 1..33, GenerateConstantInts, "
+            "GenerateConstantBigInts, GenerateBitsTypes) in the place of tlb/integers.go (go build -overlay); the VarUInteger family ((VarUInteger n), n = 1..33, "
+            "values 0 / one byte / largest length / drawn; len field of ceil(log2 n) bits, shortest len) is always included, its `wrong` twin = the length field "
+            "one bit wider (n a power of two). Canaries of the Either family: TLC also emits, for a value of (Either ^X X), the cell with the reference on the other side "
             "(the declaration with the ^ exchanged); TlbMini!Matches must refuse it at generation time, the driver must report a mismatch when it is the "
             "expectation, and TlbMini_Trace must reject an event carrying it (left and right value each), while the prescribed cells pass; the same three judges "
             "must refuse the twin of an unnamed ^ field whose content is inline instead of in a new cell.")
@@ -527,6 +542,8 @@ def tlb_type_text(t):
         return "%s%d" % (k, t["n"])
     if k == "nat":
         return "(## %d)" % t["n"]
+    if k == "varuint":
+        return "(VarUInteger %d)" % t["n"]
     if k == "bool":
         return "Bool"
     if k == "maybe":
@@ -646,12 +663,13 @@ def write_tlb_pkg(mod, sid, ast, text):
 
 
 EBASE, ECOUNT = 9_000_000, 96     # TlbShape_Gen!EBase: the Either family — (Either l r), l, r in {X, ^X, Y, ^Y}, two type pairs, three contexts
+VBASE, VCOUNT = 9_200_000, 33     # TlbShape_Gen!VBase: (VarUInteger n), n = 1..33, compiled against the output of the integer templates
 ABASE, ACOUNT = 9_100_000, 32     # TlbShape_Gen!ABase: the unnamed-field family — 8 forms of a field without `name:` x alone / first / middle / last
 
 
 def tlb_shape_numbers(ck):
     NA = 43
-    either = [EBASE + e for e in range(ECOUNT)] + [ABASE + a for a in range(ACOUNT)]
+    either = [EBASE + e for e in range(ECOUNT)] + [ABASE + a for a in range(ACOUNT)] + [VBASE + i for i in range(VCOUNT)]
     if ck.thorough:
         return list(range(NA)) + [NA + (ck.seed % 1000) * 5000 + i for i in range(1000 - NA)] + either
     return list(range(NA)) + [NA + (ck.seed % 1000) * 5000 + i for i in range(60 - NA)] + either
@@ -833,7 +851,8 @@ def run_tlb(ck, mod):
         out = [v for v in schemas[sid]["vecs"] if v["ty"] == "Main" and "wrong" in v][:2]
         return out if len(out) == 2 else None
     fams = [("either", "the reference on the other side of the Either", EBASE, ECOUNT, [EBASE + 4, EBASE + 1], wrong_pair_either),
-            ("unnamed", "the unnamed reference field inline instead of in a new cell", ABASE, ACOUNT, [ABASE + 2, ABASE + 10], wrong_pair_unnamed)]
+            ("unnamed", "the unnamed reference field inline instead of in a new cell", ABASE, ACOUNT, [ABASE + 2, ABASE + 10], wrong_pair_unnamed),
+            ("varuint", "the length field of a VarUInteger one bit too wide", VBASE, VCOUNT, [VBASE + 15, VBASE + 3], wrong_pair_unnamed)]
     chosen = []        # (tag, what, schema, its two vectors)
     for tag, what, base, count, first, wrong_pair in fams:
         fam = [sid for sid in first + sorted(schemas) if base <= sid < base + count and sid in usable and sid in results
@@ -885,29 +904,34 @@ def run_tlb(ck, mod):
 # ----------------------------------------------------------------------------------- generation is a function of its input
 RULE_HIST = ("Generator histories (spec/GenHist.tla: one process = a state machine whose only action is Gen(call, out) with out = Pure[call] whatever the history). "
              "GenHist_Gen (TLC) enumerates every history of 2..MaxLen calls over calls <compiler>|<schema>|<options> -- tlb/parser with a default generator, with "
-             "WithDefaultTypes(m, false) (m overrides default names and names a type the schema declares) and with WithDefaultTypes(m, true); tl/parser with the "
+             "WithDefaultTypes(m, false) (m overrides default names and names a type the schema declares) and with WithDefaultTypes(m, true), incl. a schema of 14 "
+             "declared types; tl/parser with the "
              "default and with a caller-supplied type table. The runner executes each history in a process of its own and each call alone in a fresh process "
-             "(the reference, Pure); GenHist_Trace accepts a recorded call iff its output (sha256 of code and error) is the reference's.")
+             "(the reference, Pure), and once more alone (histories of one call); the output of a call is every exported result of the generator (GenerateGolangTypes "
+             "and GetTlbTypes in the order returned; LoadTypes and LoadFunctions); GenHist_Trace accepts a recorded call iff its output (sha256 of all of it and "
+             "the error) is the reference's.")
 HIST_SCHEMAS = {
     "B1": "inner#a1 a:uint8 = Inner;\nmain#_ x:Grams y:Inner c:Coins b:Bool m:MsgAddress = Main;\n",
     "B2": "other#_ q:Bool v:(Maybe ^Cell) g:Grams = Other;\n",
+    # 14 declared types: the order in which collected definitions are handed out (GetTlbTypes) shows when it is a map's
+    "B3": "".join("k%d#%02x a:uint%d b:(Maybe ^Cell) = K%d;\n" % (i, 16 + i, 8 * (1 + i % 4), i) for i in range(13)) + "top#_ x:K0 y:K5 z:K12 g:Grams = Top;\n",
     "T1": ("liteServer.error#bba9e148 code:int message:string = liteServer.Error;\np.a#0a0b0c0d x:int y:long z:bytes = p.A;\n"
            "---functions---\np.f#01020304 = p.A;\n"),
 }
 
 
 def run_hist(ck, mod):
-    calls = ["tlb|B1|default", "tlb|B1|over", "tlb|B1|replace", "tlb|B2|default", "tl|T1|default", "tl|T1|custom"]
+    calls = ["tlb|B1|default", "tlb|B1|over", "tlb|B1|replace", "tlb|B3|default", "tl|T1|default", "tl|T1|custom"]
     maxlen = 3
     if ck.thorough:
-        calls += ["tlb|B2|over", "tlb|B2|replace"]
+        calls += ["tlb|B2|default", "tlb|B2|over"]
         maxlen = 4
     cfg = "CONSTANTS\n  Calls = {%s}\n  MaxLen = %d\nSPECIFICATION Spec\nINVARIANT Emit\nCHECK_DEADLOCK FALSE\n" % (", ".join('"%s"' % c for c in calls), maxlen)
     p = os.path.join(ck.work, "GenHist_Gen.cfg")
     open(p, "w").write(cfg)
     res = ck.tlc_or_infra("GenHist_Gen", os.path.relpath(p, vlib.SPEC), name="genhist", timeout=900, heap_gb=3)
     hists = sorted(v["hist"] for v in res.vecs())
-    want = sum(len(calls) ** n for n in range(2, maxlen + 1))
+    want = sum(len(calls) ** n for n in range(1, maxlen + 1))
     if len(hists) != want or len({tuple(h) for h in hists}) != want:
         raise Infra("GenHist_Gen emitted %d histories, expected %d" % (len(hists), want))
     ip, tp = os.path.join(ck.work, "hist_in.json"), os.path.join(ck.work, "hist_trace.ndjson")
@@ -924,14 +948,17 @@ def run_hist(ck, mod):
         raise Infra("history mode: the options do not produce different code for the same schema (the calls would not tell histories apart): %s" % refs)
     _, rejected = ck.validate_segments("GenHist_Trace", "trace/GenHist_Trace.cfg", tp, timeout=900, name="genhist_trace")
     told = []       # (compiler, options of the call, options used before it) already reported: longer histories containing them add nothing
-    for rj in sorted(rejected, key=lambda r: len(r["segment"])):
+    is_alone = lambda rj: rj["accepted"] == 1 or set(rj["segment"][0]["hist"][:rj["accepted"] - 1]) == {rj["event"]["call"]}
+    # first the calls that differ with nothing but the same call before them (not a function at all), then the rest by history length
+    for rj in sorted(rejected, key=lambda r: (not is_alone(r), len(r["segment"]))):
         e, h = rj["event"], rj["segment"][0]["hist"]
         comp, _, opt = e["call"].split("|")
-        before = sorted({c.split("|")[2] for c in h[:rj["accepted"] - 1] if c.split("|")[0] == comp} - {opt})
+        alone = is_alone(rj)
+        before = [] if alone else sorted({c.split("|")[2] for c in h[:rj["accepted"] - 1] if c.split("|")[0] == comp} - {opt})
         if any(c_ == comp and o_ == opt and set(b_) <= set(before) for c_, o_, b_ in told):
             continue
         told.append((comp, opt, before))
-        ck.report("C09:%s:history:%s-after-%s" % (comp, opt, "+".join(before) or "other-compiler"),
+        ck.report("C09:%s:nondeterministic-output:%s" % (comp, opt) if alone else "C09:%s:history:%s-after-%s" % (comp, opt, "+".join(before) or "other-compiler"),
                   "generation is not a function of its input: in the process history %s the call %s produced other code than the same call in a fresh process "
                   "(err %r / fresh %r)\n--- fresh process\n%s\n--- in this history\n%s" % (h, e["call"], e.get("err"), e.get("ref_err"), e.get("ref_text", "")[:700], e.get("text", "")[:700]),
                   {"kind": "history", "schemas": HIST_SCHEMAS, "hist": h, "call": e["call"]})
